@@ -23,11 +23,12 @@ def main():
     name = os.path.basename(seed.rstrip('/'))
     out = {'worktree': wt, 'seed': seed}
     env = dict(os.environ, CARGO_NET_OFFLINE='true')
+    feat = ['--features', 'utils'] if os.path.basename(wt.rstrip('/')) == 'C18' else []
     sh(['git', 'checkout', '--', '.'], cwd=wt)
     demo_dst = os.path.join(wt, 'tests', 'demo_%s.rs' % name)
     shutil.copy(os.path.join(seed, 'demo.rs'), demo_dst)
     try:
-        rc, o = sh(['cargo', 'test', '--offline', '--test', 'demo_%s' % name], cwd=wt, env=env)
+        rc, o = sh(['cargo', 'test', '--offline'] + feat + ['--test', 'demo_%s' % name], cwd=wt, env=env)
         out['demo_passes_clean'] = rc == 0
         rc, o = sh(['git', 'apply', os.path.join(seed, 'patch.diff')], cwd=wt)
         out['patch_applies'] = rc == 0
@@ -35,11 +36,11 @@ def main():
             out['error'] = o[-400:]
             print(json.dumps(out, indent=1))
             return
-        rc, o = sh(['cargo', 'test', '--offline', '--lib'], cwd=wt, env=env)
-        out['suite_passes_with_patch'] = rc == 0 and '50 passed' in o
-        rc2, o2 = sh(['cargo', 'test', '--offline', '--doc'], cwd=wt, env=env)
+        rc, o = sh(['cargo', 'test', '--offline', '--lib'] + feat, cwd=wt, env=env)
+        out['suite_passes_with_patch'] = rc == 0 and ('50 passed' in o or (feat and '52 passed' in o))
+        rc2, o2 = sh(['cargo', 'test', '--offline', '--doc'] + feat, cwd=wt, env=env)
         out['doctests_pass_with_patch'] = rc2 == 0
-        rc, o = sh(['cargo', 'test', '--offline', '--test', 'demo_%s' % name], cwd=wt, env=env)
+        rc, o = sh(['cargo', 'test', '--offline'] + feat + ['--test', 'demo_%s' % name], cwd=wt, env=env)
         out['demo_fails_with_patch'] = rc != 0
         out['demo_failure'] = [l for l in o.splitlines() if 'panicked' in l or 'left:' in l or 'right:' in l or 'FAILED' in l][:6]
         # static checks against the patched tree
